@@ -37,7 +37,7 @@ type c06Shared struct {
 	stop    int32
 	readers int32 // readers still running
 	// probe counters (plain maps must not be shared between tasks)
-	pinnedReq, exportPinned, doubleClose int64
+	pinnedReq, exportPinned, doubleClose, latePins int64
 	// finished is a real (race-detector-visible) release/acquire pair: the
 	// readers' last action and the writer's last check before it closes the
 	// tree, as an application that closes its store after its queries ended.
@@ -108,8 +108,8 @@ func genC06(seed uint64, run int, tier string) *drv.Plan {
 	r := sim.Sub(seed, "C06", run)
 	b := drv.DefaultBias()
 	b.NoEmptyValues = true
-	b.Tiny, b.Small, b.MediumMax = 20, 50, 16
-	b.MaxOpsPerVersion = 5
+	b.Tiny, b.Small, b.MediumMax = 20, 45, 40
+	b.MaxOpsPerVersion = 6
 	b.MinVersions, b.MaxVersions = 2, 6
 	b.Reopen, b.Load, b.LVFO, b.DVF, b.Discard, b.Recommit, b.SetNil, b.ExpImp, b.Pin = 0, 0, 0, 0, 0, 0, 0, 0, 0
 	b.Prune = 40
@@ -280,8 +280,48 @@ func execC06(p *drv.Plan) *Out {
 	}
 
 	// ---------------------------------------------------------------- writer
+	var lateOpen *iavl.Exporter
+	var lateV, lateN int64
+	lateSaves := 0
+	drainLate := func(s drv.Step) {
+		e := lateOpen
+		lateOpen = nil
+		// while the export is open its version is pinned: it must still be there
+		stillThere := tree.VersionExists(lateV)
+		if _, gerr := tree.GetImmutable(lateV); gerr != nil {
+			stillThere = false
+		}
+		if !stillThere && box.v[0] == nil {
+			report(0, &drv.Violation{Prop: "C06", Oracle: "C06.pin", Symptom: "pinned-version-deleted", Class: "late-export/async", Detail: fmt.Sprintf("version %d is gone although an export of it, opened right after DeleteVersionsTo(%d) was queued, is still open (%d commit(s) later)", lateV, lateN, lateSaves), StepID: s.ID})
+		}
+		nodes, nerr := drv.ExportAll(e.Next)
+		e.Close()
+		exp := vers[lateV]
+		if box.v[0] != nil || exp == nil {
+			return
+		}
+		if nerr != nil {
+			report(0, &drv.Violation{Prop: "C06", Oracle: "C06.pin", Symptom: "pinned-version-deleted", Class: "late-export/async", Detail: fmt.Sprintf("an export of version %d, opened right after DeleteVersionsTo(%d) was queued and held over %d commit(s), failed: %v", lateV, lateN, lateSaves, nerr), StepID: s.ID})
+		} else if d := drv.CompareExport(nodes, exp.export); d != "" {
+			report(0, &drv.Violation{Prop: "C06", Oracle: "C06.pin", Symptom: "pinned-version-deleted", Class: "late-export/async", Detail: fmt.Sprintf("an export of version %d, opened right after DeleteVersionsTo(%d) was queued and held over %d commit(s), is incomplete: %s", lateV, lateN, lateSaves, d), StepID: s.ID})
+		}
+	}
 	sched.Go("writer", func() {
+		defer func() {
+			if lateOpen != nil {
+				lateOpen.Close()
+				lateOpen = nil
+			}
+		}()
 		for _, s := range wsteps {
+			if lateOpen != nil && lateSaves >= 1 && s.Op != drv.OpSet && s.Op != drv.OpRemove {
+				// let the pruner work first (simulated time passes), then read the export
+				sched.Sleep(300 * time.Millisecond)
+				drainLate(s)
+			}
+			if s.Op == drv.OpSave && lateOpen != nil {
+				lateSaves++
+			}
 			if sh.stopped() {
 				break
 			}
@@ -338,7 +378,32 @@ func execC06(p *drv.Plan) *Out {
 					if !pinned {
 						sh.store(&sh.floor, n+1)
 					}
-					err := tree.DeleteVersionsTo(n)
+					var late *iavl.Exporter
+					var lateErr error
+					if async && !pinned && s.ID%3 == 0 {
+						// an export opened right after the deletion was requested, before
+						// the background pruner had a chance to look: from the moment
+						// Export() returned the version is pinned and must stay complete
+						sched.Atomic(func() {
+							lateErr = tree.DeleteVersionsTo(n)
+							if it, e := tree.GetImmutable(n); e == nil {
+								late, _ = it.Export()
+							}
+						})
+						if late != nil {
+							sh.add(&sh.latePins, 1)
+							// it is kept open over the writer's next commit (which flushes
+							// whatever the pruner queued) and drained afterwards
+							if lateOpen != nil {
+								drainLate(s)
+							}
+							lateOpen, lateV, lateN, lateSaves = late, n, n, 0
+						}
+					}
+					err := lateErr
+					if late == nil && lateErr == nil {
+						err = tree.DeleteVersionsTo(n)
+					}
 					switch {
 					case pinned && !async && err == nil:
 						return &drv.Violation{Prop: "C06", Oracle: "C06.pin", Symptom: "accepted", Class: "prune-pinned", Detail: fmt.Sprintf("DeleteVersionsTo(%d) succeeded while an Exporter is open on a version <= %d", n, n)}
@@ -351,6 +416,10 @@ func execC06(p *drv.Plan) *Out {
 				}
 				return nil
 			})
+		}
+		if lateOpen != nil {
+			sched.Sleep(300 * time.Millisecond)
+			drainLate(drv.Step{ID: -1})
 		}
 		// wait for the readers, then close the tree (lets the async pruner exit)
 		sched.BlockUntil(func() bool { return sh.readersLeft() <= 0 })
@@ -431,6 +500,7 @@ func execC06(p *drv.Plan) *Out {
 	out.Probes["prune.pinned-request"] = int(sh.pinnedReq)
 	out.Probes["export.pinned"] = int(sh.exportPinned)
 	out.Probes["export.double-close"] = int(sh.doubleClose)
+	out.Probes["export.late-pin-async"] = int(sh.latePins)
 	if async {
 		out.Probes["mode.async"]++
 	} else {
